@@ -33,11 +33,13 @@ type c19Case struct {
 // callback handlers attached to the run (compose.WithCallbacks). Every handler that takes a copy of a
 // stream closes it (after reading nothing / one chunk / everything), as the property assumes;
 // "plain" has no streaming callbacks at all (its TimingChecker answers false for them).
-func c19Handlers(kinds []string) []callbacks.Handler {
-	var hs []callbacks.Handler
-	for _, k := range kinds {
+func c19Handler(k string) callbacks.Handler {
+	{
 		hb := callbacks.NewHandlerBuilder()
 		switch k {
+		case "raw-close":
+			// no TimingChecker: it is handed a copy at every streaming timing, and closes it
+			return &c19RawHandler{}
 		case "plain":
 			hb = hb.OnStartFn(func(ctx context.Context, info *callbacks.RunInfo, in callbacks.CallbackInput) context.Context {
 				return ctx
@@ -76,20 +78,130 @@ func c19Handlers(kinds []string) []callbacks.Handler {
 				return ctx
 			})
 		}
-		hs = append(hs, hb.Build())
+		return hb.Build()
 	}
-	return hs
+}
+
+// a handler without a TimingChecker
+type c19RawHandler struct{}
+
+func (*c19RawHandler) OnStart(ctx context.Context, info *callbacks.RunInfo, in callbacks.CallbackInput) context.Context {
+	return ctx
+}
+func (*c19RawHandler) OnEnd(ctx context.Context, info *callbacks.RunInfo, out callbacks.CallbackOutput) context.Context {
+	return ctx
+}
+func (*c19RawHandler) OnError(ctx context.Context, info *callbacks.RunInfo, err error) context.Context {
+	return ctx
+}
+func (*c19RawHandler) OnStartWithStreamInput(ctx context.Context, info *callbacks.RunInfo, in *schema.StreamReader[callbacks.CallbackInput]) context.Context {
+	in.Close()
+	return ctx
+}
+func (*c19RawHandler) OnEndWithStreamOutput(ctx context.Context, info *callbacks.RunInfo, out *schema.StreamReader[callbacks.CallbackOutput]) context.Context {
+	out.Close()
+	return ctx
+}
+
+// The handler LIST of a case. An entry is
+//
+//	<kind>    a fresh handler passed for the run (WithCallbacks)
+//	=<i>      the same handler VALUE as entry i, passed for the run once more
+//	g=<i>     the handler value of entry i, also installed as a global handler for the case
+//	g:<kind>  a fresh handler installed as a global handler only
+//
+// kinds: plain (its TimingChecker declines the streaming timings) | out-close | out-prefix |
+// out-all | in-close | raw-close (no TimingChecker).
+func c19HandlerSet(entries []string) (perCall, global []callbacks.Handler) {
+	vals := make([]callbacks.Handler, len(entries))
+	ref := func(s string) callbacks.Handler {
+		var i int
+		if _, err := fmt.Sscanf(s, "%d", &i); err != nil || i < 0 || i >= len(vals) || vals[i] == nil {
+			return c19Handler("plain")
+		}
+		return vals[i]
+	}
+	for i, e := range entries {
+		switch {
+		case strings.HasPrefix(e, "g="):
+			vals[i] = ref(e[2:])
+			global = append(global, vals[i])
+		case strings.HasPrefix(e, "="):
+			vals[i] = ref(e[1:])
+			perCall = append(perCall, vals[i])
+		case strings.HasPrefix(e, "g:"):
+			vals[i] = c19Handler(e[2:])
+			global = append(global, vals[i])
+		default:
+			vals[i] = c19Handler(e)
+			perCall = append(perCall, vals[i])
+		}
+	}
+	return perCall, global
+}
+
+// c19RunOpts installs the handler list of a case: the per-run handlers as one WithCallbacks option
+// each, the global ones through callbacks.InitCallbackHandlers until done is called (cases run
+// one at a time).
+func c19RunOpts(entries []string) (opts []compose.Option, done func()) {
+	perCall, global := c19HandlerSet(entries)
+	for _, h := range perCall {
+		opts = append(opts, compose.WithCallbacks(h))
+	}
+	if len(global) > 0 {
+		callbacks.InitCallbackHandlers(global)
+		return opts, func() { callbacks.InitCallbackHandlers(nil) }
+	}
+	return opts, func() {}
+}
+
+// c19ListedTwice: some handler value occurs more than once in the list
+func c19ListedTwice(entries []string) bool {
+	for _, e := range entries {
+		if strings.HasPrefix(e, "=") || strings.HasPrefix(e, "g=") {
+			return true
+		}
+	}
+	return false
+}
+
+// c19CbSfx is the callback part of a signature
+func c19CbSfx(entries []string) string {
+	if len(entries) == 0 {
+		return ""
+	}
+	if c19ListedTwice(entries) {
+		return ":callbacks:handler-listed-twice"
+	}
+	return ":callbacks"
 }
 
 func c19GenHandlers(r *vh.Rand) []string {
 	if !r.Chance(40) {
 		return nil
 	}
-	kinds := []string{"plain", "plain", "out-close", "out-prefix", "out-all", "in-close"}
+	kinds := []string{"plain", "plain", "out-close", "out-prefix", "out-all", "in-close", "raw-close"}
 	n := 1 + r.Intn(2)
 	var hs []string
 	for i := 0; i < n; i++ {
-		hs = append(hs, kinds[r.Intn(len(kinds))])
+		k := kinds[r.Intn(len(kinds))]
+		if r.Chance(10) {
+			k = "g:" + k // installed globally only
+		}
+		hs = append(hs, k)
+	}
+	// the list shape: one of the handler values listed once more (for the run / globally too)
+	if r.Chance(35) {
+		i := r.Intn(len(hs))
+		at := 1 + r.Intn(len(hs)) // anywhere after entry i's position 0.. (a decliner may sit in between)
+		if at <= i {
+			at = i + 1
+		}
+		e := fmt.Sprintf("=%d", i)
+		if r.Chance(40) && !strings.HasPrefix(hs[i], "g:") {
+			e = fmt.Sprintf("g=%d", i)
+		}
+		hs = append(hs[:at], append([]string{e}, hs[at:]...)...)
 	}
 	return hs
 }
@@ -100,6 +212,11 @@ type c19Pre struct {
 	NoConsumer       []string `json:"noConsumer"`
 	Surplus          []string `json:"surplus"`
 	LeakWithoutClose int      `json:"leakWithoutClose"`
+	CbCopiesOut      int      `json:"cbCopiesOut"` // callback-copy ledger of one node, output timing
+	CbHandedOut      int      `json:"cbHandedOut"`
+	CbCopiesIn       int      `json:"cbCopiesIn"`
+	CbHandedIn       int      `json:"cbHandedIn"`
+	CbLeaked         int      `json:"cbLeaked"`
 }
 
 // producers: every streaming form emits through an unbuffered Pipe from its own goroutine.
@@ -201,7 +318,9 @@ func c19One(ctx *vh.Ctx, c *c19Case) error {
 			var sr *schema.StreamReader[gcase.M]
 			var ropts []compose.Option
 			if len(c.Handlers) > 0 {
-				ropts = append(ropts, compose.WithCallbacks(c19Handlers(c.Handlers)...))
+				hopts, hdone := c19RunOpts(c.Handlers)
+				defer hdone()
+				ropts = append(ropts, hopts...)
 			}
 			if c.Paradigm == "transform" {
 				sr, runErr = r.Transform(bg, schema.StreamReaderFromArray(gcase.ChunkMap(c.InChunks, x)), ropts...)
@@ -236,6 +355,9 @@ func c19One(ctx *vh.Ctx, c *c19Case) error {
 	for _, h := range c.Handlers {
 		ctx.Res.Dist("handler=" + h)
 	}
+	if c19ListedTwice(c.Handlers) {
+		ctx.Res.Dist("handler-listed-twice")
+	}
 	if !clean {
 		ctx.Res.Dist("out-of-scope(precondition)")
 		ctx.Res.Count("oos", false)
@@ -260,9 +382,7 @@ func c19One(ctx *vh.Ctx, c *c19Case) error {
 		if len(pre.Surplus) > 0 {
 			sig = "C19:producer-blocked:surplus-branch-copy"
 		}
-		if len(c.Handlers) > 0 {
-			sig += ":callbacks"
-		}
+		sig += c19CbSfx(c.Handlers)
 		ctx.Res.Disagree(vh.Disagreement{Signature: sig,
 			What: fmt.Sprintf("after the run completed and its output was %s, %d producer(s) are still blocked on a send: %s", map[bool]string{true: "read to the end", false: "closed early"}[c.Consume < 0], len(stuck), strings.Join(vh.SortedStrings(stuck), ",")),
 			Case: c, Model: pre, Impl: map[string]any{"started": tr.started, "exited": tr.exited, "stuck": vh.SortedStrings(stuck)}})
@@ -303,6 +423,7 @@ func runC19(ctx *vh.Ctx) error {
 	ctx.Res.Rule += " || workflow family: a streaming producer (unbuffered pipe, goroutine) whose successors are data+control / data-only / control-only / branch ends, value and prefix-reading stream conditions, single and multi-way; control-only successors (dep nodes, branch ends) take their own data from START / nothing at all / static values / START without control / the producer without control (targets without any data predecessor, skipped ends that are sent data, ends named by the branch and by a data edge); the copy-routing model (oracle) names the fate of every copy, compared: producer released, and not cut off when some reader drains its stream; non-trivial = a branch or >=2 successor kinds"
 	ctx.Res.Rule += " || merge family: fan-ins of 2..9 sources of different lengths (schema.MergeStreamReaders driven directly with pipes / converted readers / copies / arrays / merged readers; DAG and Pregel fan-ins into END, a prefix-reading node, a pass node with a prefix-reading stream branch; Workflow inputs; ToolsNode.Stream), the reader closes after the short sources have ended / early / reads to the end; the reader's trace is replayed on the merged-reader model, which names the senders released by the close; non-trivial = >=1 short (<=2 chunks) and >=1 long source and the reader closes after at least 40 chunks more than the short sources have"
 	ctx.Res.Rule += " || cross family: a streaming producer A and a branching node B side by side in a Workflow; the ends of B's branch take A's stream without control / with control / not at all and concatenate it or pass it on lazily; the order of 'A's copy reaches the end's channel' and 'the branch skips the end' is forced by structure (B depends on A: value first) or by a barrier (A waits for the branch condition: skip first) or left free; the copy-routing model names the fate of every copy; compared: producer released, not cut off while a reader drains; non-trivial = some copy is sent to an end that is skipped"
+	ctx.Res.Rule += " || handler lists (all families): fresh handlers per run, the same handler value listed once more (=i), installed globally too (g=i) or globally only (g:kind), handlers whose TimingChecker declines the streaming timings (plain) or that have none (raw-close); the callback-copy ledger of the model (one copy per kept occurrence + the node's, all handed out) is part of the oracle's answer"
 	if ctx.Replay != nil {
 		if done, err := c19wReplay(ctx, ctx.Replay); done {
 			return err
